@@ -591,6 +591,159 @@ Section CollProofs.
   Qed.
 End CollProofs.
 
+(* ------------------------------------------------------------ erasure
+   The model functions are parametric in the key type.  If K' is mapped into K by [f] and K' is
+   compared through [f] (eqb' a b = eqb (f a) (f b), same for ltb), every operation commutes with
+   [map f].  Used with K' = { v | has_type t v = true }, f = proj1_sig: theorems proved at the
+   subtype (where == and < form a key order) transfer to the raw values the correspondence runs on. *)
+Section Erase.
+  Variables K K' V : Type.
+  Variable f : K' -> K.
+  Variables eqb ltb : K -> K -> bool.
+  Notation eqb' := (fun a b : K' => eqb (f a) (f b)).
+  Notation ltb' := (fun a b : K' => ltb (f a) (f b)).
+  Notation g := (fun kv : K' * V => (f (fst kv), snd kv)).
+
+  Lemma erase_insert_by {A' A} (key' : A' -> K') (key : A -> K) (h : A' -> A) :
+    (forall a, key (h a) = f (key' a)) ->
+    forall x l, map h (insert_by ltb' key' x l) = insert_by ltb key (h x) (map h l).
+  Proof.
+    intros Hk x l. induction l as [|y r IH]; simpl; [reflexivity|].
+    rewrite !Hk. destruct (ltb (f (key' y)) (f (key' x))); simpl; [rewrite IH|]; reflexivity.
+  Qed.
+
+  Lemma erase_sorted_by {A' A} (key' : A' -> K') (key : A -> K) (h : A' -> A) :
+    (forall a, key (h a) = f (key' a)) ->
+    forall l, map h (sorted_by ltb' key' l) = sorted_by ltb key (map h l).
+  Proof.
+    intros Hk l. induction l as [|y r IH]; simpl; [reflexivity|].
+    unfold sorted_by in *. simpl. rewrite (erase_insert_by key' key h Hk), IH. reflexivity.
+  Qed.
+
+  Lemma erase_existsb x l :
+    existsb (fun y => eqb' y x) l = existsb (fun y => eqb y (f x)) (map f l).
+  Proof. induction l as [|y r IH]; simpl; [reflexivity|]. rewrite IH. reflexivity. Qed.
+
+  Lemma erase_existsb' x l :
+    existsb (fun y => eqb' x y) l = existsb (fun y => eqb (f x) y) (map f l).
+  Proof. induction l as [|y r IH]; simpl; [reflexivity|]. rewrite IH. reflexivity. Qed.
+
+  Lemma erase_nodupb l : nodupb eqb' l = nodupb eqb (map f l).
+  Proof. induction l as [|y r IH]; simpl; [reflexivity|]. rewrite erase_existsb', IH. reflexivity. Qed.
+
+  Lemma erase_list_eqb a : forall b, list_eqb eqb' a b = list_eqb eqb (map f a) (map f b).
+  Proof. induction a as [|x a IH]; intros [|y b]; simpl; try reflexivity. rewrite IH. reflexivity. Qed.
+
+  Lemma erase_check l : check_constraints eqb' ltb' l = check_constraints eqb ltb (map f l).
+  Proof.
+    unfold check_constraints, py_sorted. rewrite erase_nodupb, erase_list_eqb.
+    rewrite (erase_sorted_by (fun x => x) (fun x => x) f) by reflexivity. reflexivity.
+  Qed.
+
+  Lemma erase_filter x l :
+    map f (filter (fun y => negb (eqb' y x)) l) = filter (fun y => negb (eqb y (f x))) (map f l).
+  Proof.
+    induction l as [|y r IH]; simpl; [reflexivity|].
+    destruct (eqb (f y) (f x)); simpl; rewrite IH; reflexivity.
+  Qed.
+
+  (* ---- sets *)
+  Definition erase_set_op (o : set_op K') : set_op K :=
+    match o with SUpdate x b => SUpdate (f x) b | SLiteral l => SLiteral (map f l) end.
+
+  Lemma erase_set_step s o :
+    map f (set_step eqb' ltb' s o) = set_step eqb ltb (map f s) (erase_set_op o).
+  Proof.
+    destruct o as [x b|l]; simpl.
+    - destruct b; simpl.
+      + unfold set_add, set_contains. rewrite erase_existsb.
+        destruct (existsb (fun y => eqb y (f x)) (map f s)); [reflexivity|].
+        unfold py_sorted. rewrite (erase_sorted_by (fun x => x) (fun x => x) f) by reflexivity. reflexivity.
+      + unfold set_remove, set_contains. rewrite erase_existsb.
+        destruct (existsb (fun y => eqb y (f x)) (map f s)); [apply erase_filter | reflexivity].
+    - unfold set_literal. rewrite erase_check. destruct (check_constraints eqb ltb (map f l)); reflexivity.
+  Qed.
+
+  Lemma erase_set_run ops :
+    map f (set_run eqb' ltb' ops) = set_run eqb ltb (map erase_set_op ops).
+  Proof.
+    unfold set_run. change (@nil K) with (map f []). generalize (@nil K').
+    induction ops as [|o ops IH]; intro s; simpl; [reflexivity|]. rewrite IH, erase_set_step. reflexivity.
+  Qed.
+
+  (* ---- maps *)
+  Lemma erase_keys (m : list (K' * V)) : keys (map g m) = map f (keys m).
+  Proof. unfold keys. rewrite !List.map_map. reflexivity. Qed.
+
+  Lemma erase_map_get k (m : list (K' * V)) : map_get eqb' k m = map_get eqb (f k) (map g m).
+  Proof. induction m as [|[k0 v0] m IH]; simpl; [reflexivity|]. rewrite IH. reflexivity. Qed.
+
+  Lemma erase_map_update k vo (m : list (K' * V)) :
+    fst (map_update eqb' ltb' k vo m) = fst (map_update eqb ltb (f k) vo (map g m)) /\
+    map g (snd (map_update eqb' ltb' k vo m)) = snd (map_update eqb ltb (f k) vo (map g m)).
+  Proof.
+    unfold map_update. simpl. rewrite <- erase_map_get. split; [reflexivity|].
+    destruct (map_get eqb' k m) as [pv|]; destruct vo as [v|].
+    - rewrite !List.map_map. apply map_ext. intros [k0 v0]. simpl. destruct (eqb (f k0) (f k)); reflexivity.
+    - induction m as [|[k0 v0] m IH]; simpl; [reflexivity|].
+      destruct (eqb (f k0) (f k)); simpl; rewrite IH; reflexivity.
+    - rewrite (erase_sorted_by fst fst g) by reflexivity. rewrite map_app. reflexivity.
+    - reflexivity.
+  Qed.
+
+  Lemma erase_map_literal (l : list (K' * V)) :
+    match map_literal eqb' ltb' l with Ok x => Ok (map g x) | Reject => Reject end
+    = map_literal eqb ltb (map g l).
+  Proof.
+    unfold map_literal. rewrite erase_keys, erase_check.
+    destruct (check_constraints eqb ltb (map f (keys l))); reflexivity.
+  Qed.
+
+  Lemma erase_map_map phi (m : list (K' * V)) :
+    match map_map eqb' ltb' (fun k' v => phi (f k') v) m with Ok x => Ok (map g x) | Reject => Reject end
+    = map_map eqb ltb phi (map g m).
+  Proof.
+    destruct m as [|kv m]; [reflexivity|].
+    assert (X : map (fun kv0 : K * V => (fst kv0, phi (fst kv0) (snd kv0))) (map g (kv :: m))
+                = map g (map (fun kv0 : K' * V => (fst kv0, phi (f (fst kv0)) (snd kv0))) (kv :: m)))
+      by (rewrite !List.map_map; reflexivity).
+    change (map_map eqb ltb phi (map g (kv :: m)))
+      with (map_literal eqb ltb (map (fun kv0 : K * V => (fst kv0, phi (fst kv0) (snd kv0))) (map g (kv :: m)))).
+    rewrite X, <- erase_map_literal. reflexivity.
+  Qed.
+
+  Inductive mop_rel : map_op K' V -> map_op K V -> Prop :=
+  | MR_upd k vo : mop_rel (MUpdate k vo) (MUpdate (f k) vo)
+  | MR_gau k vo : mop_rel (MGetAndUpdate k vo) (MGetAndUpdate (f k) vo)
+  | MR_map phi : mop_rel (MMap (fun k' v => phi (f k') v)) (MMap phi)
+  | MR_lit l : mop_rel (MLiteral l) (MLiteral (map g l)).
+
+  Lemma erase_map_step (m : list (K' * V)) o' o : mop_rel o' o ->
+    map g (map_step eqb' ltb' m o') = map_step eqb ltb (map g m) o.
+  Proof.
+    intro R. destruct R as [k vo|k vo|phi|l]; simpl.
+    - apply erase_map_update.
+    - apply erase_map_update.
+    - rewrite <- erase_map_map. destruct (map_map eqb' ltb' (fun k' v => phi (f k') v) m); reflexivity.
+    - rewrite <- erase_map_literal. destruct (map_literal eqb' ltb' l); reflexivity.
+  Qed.
+
+  Lemma erase_map_run ops' ops : Forall2 mop_rel ops' ops ->
+    map g (map_run eqb' ltb' ops') = map_run eqb ltb ops.
+  Proof.
+    unfold map_run. change (@nil (K * V)) with (map g []). generalize (@nil (K' * V)).
+    intros m R. revert m. induction R as [|o' o ops' ops Ro _ IH]; intro m; simpl; [reflexivity|].
+    rewrite IH, (erase_map_step m o' o Ro). reflexivity.
+  Qed.
+
+  Lemma StronglySorted_map (R' : K' -> K' -> Prop) (R : K -> K -> Prop) :
+    (forall a b, R' a b -> R (f a) (f b)) -> forall l, StronglySorted R' l -> StronglySorted R (map f l).
+  Proof.
+    intros HR l S. induction S as [|x l S IH F]; simpl; constructor; [exact IH|].
+    rewrite Forall_forall in *. intros y Hy. apply in_map_iff in Hy. destruct Hy as [z [<- Hz]]. apply HR, F, Hz.
+  Qed.
+End Erase.
+
 (* the hypotheses in one word *)
 Definition key_order {K} (eqb ltb : K -> K -> bool) : Prop :=
   (forall a b, eqb a b = true <-> a = b) /\
